@@ -33,6 +33,7 @@ import (
 	"sort"
 	"strings"
 	"testing"
+	"time"
 
 	"google.golang.org/protobuf/proto"
 
@@ -200,11 +201,12 @@ type c07rMsg struct {
 	covert     string
 	prescanned bool
 	regAddr    net.IP
+	port       int // registrar's dst_port override, -1 = none
 }
 
 func (m *c07rMsg) String() string {
-	return fmt.Sprintf("secret=%s src=%s gen=%d v4sup=%v v6sup=%v registrant=%v ipv4addr=%v ipv6addr=%v covert=%s prescanned=%v",
-		hex.EncodeToString(m.secret[:6]), m.src, m.gen, m.v4sup, m.v6sup, m.regAddr, m.pin4, m.pin6, m.covert, m.prescanned)
+	return fmt.Sprintf("secret=%s src=%s gen=%d v4sup=%v v6sup=%v registrant=%v ipv4addr=%v ipv6addr=%v dst_port=%d covert=%s prescanned=%v",
+		hex.EncodeToString(m.secret[:6]), m.src, m.gen, m.v4sup, m.v6sup, m.regAddr, m.pin4, m.pin6, m.port, m.covert, m.prescanned)
 }
 
 func (m *c07rMsg) marshal() []byte {
@@ -220,8 +222,11 @@ func (m *c07rMsg) marshal() []byte {
 	if m.prescanned {
 		w.RegistrationPayload.Flags = &pb.RegistrationFlags{Prescanned: proto.Bool(true)}
 	}
-	if m.pin4 != nil || m.pin6 != nil {
+	if m.pin4 != nil || m.pin6 != nil || m.port >= 0 {
 		rr := &pb.RegistrationResponse{}
+		if m.port >= 0 {
+			rr.DstPort = proto.Uint32(uint32(m.port))
+		}
 		if m.pin4 != nil {
 			b := m.pin4.To4()
 			rr.Ipv4Addr = proto.Uint32(uint32(b[0])<<24 | uint32(b[1])<<16 | uint32(b[2])<<8 | uint32(b[3]))
@@ -243,6 +248,80 @@ func (m *c07rMsg) marshal() []byte {
 type c07rIdentity struct {
 	delivered bool // the station was sent this (secret, phantom) before
 	admitted  bool // it was connectable at some point
+	secret    []byte
+	phantom   net.IP
+	// every delivery of this identity with the values it carried and whether those values satisfied every
+	// admission condition when they were delivered
+	deliveries []c07rDelivery
+}
+
+type c07rDelivery struct {
+	covert     netip.AddrPort // what the station stores for an admitted covert: the literal / resolved address and port
+	port       uint16
+	registrant string
+	admissible bool
+	why        string
+}
+
+// c07rObj returns the registration object the station hands to incoming connections for (phantom, secret).
+func c07rObj(rm *RegistrationManager, phantom net.IP, secret []byte) *DecoyRegistration {
+	for _, r := range rm.GetRegistrations(phantom) {
+		if d, ok := r.(*DecoyRegistration); ok && string(d.SharedSecret()) == string(secret) {
+			return d
+		}
+	}
+	return nil
+}
+
+// elapse lets d pass for everything the station tracks (no sleeping: the clocks the station compares
+// with time.Now() - the registration's own time and its timeout record - are moved into the past).
+func (s *c07rSeq) elapse(d time.Duration) {
+	r := s.rm.registeredDecoys
+	r.m.Lock()
+	for _, m := range r.decoys {
+		for _, reg := range m {
+			reg.RegistrationTime = reg.RegistrationTime.Add(-d)
+		}
+	}
+	for _, t := range r.decoysTimeouts {
+		t.registrationTime = t.registrationTime.Add(-d)
+	}
+	r.m.Unlock()
+	s.h.rec.Count("time_passes["+d.String()+"]", 1)
+	s.note("TIME PASSES: %v", d)
+	if d >= 10*time.Minute {
+		// the station's periodic sweep
+		s.rm.RemoveOldRegistrations()
+		for _, idn := range s.ids {
+			if idn.phantom != nil && !c07Tracked(s.rm, idn.phantom, idn.secret) {
+				// forgotten by the station: the next delivery is a first delivery again
+				*idn = c07rIdentity{secret: idn.secret, phantom: idn.phantom}
+			}
+		}
+	}
+}
+
+// variant: an earlier message of the sequence again (same secret, same phantoms, same generation and
+// support flags = the same registration for the station) with exactly one thing changed - or nothing.
+func (s *c07rSeq) variant() *c07rMsg {
+	r := s.rng
+	m := *s.sent[r.Intn(len(s.sent))]
+	switch r.Intn(6) {
+	case 0, 1:
+		m.covert = c07rCoverts[r.Intn(len(c07rCoverts))]
+	case 2:
+		m.port = []int{-1, 443, 8443, 2222}[r.Intn(4)]
+	case 3:
+		if m.regV6 {
+			m.regAddr = net.ParseIP(fmt.Sprintf("2001:db8:c1::%x", 1+r.Intn(40)))
+		} else {
+			m.regAddr = net.ParseIP(fmt.Sprintf("11.0.0.%d", 1+r.Intn(40))).To16()
+		}
+	case 4:
+		m.prescanned = !m.prescanned
+	}
+	s.h.rec.Count("redeliveries_of_an_earlier_registration", 1)
+	return &m
 }
 
 type c07rSeq struct {
@@ -258,6 +337,7 @@ type c07rSeq struct {
 	ids       map[string]*c07rIdentity
 	// phantoms the station was shown since the start of the sequence -> was it blocklisted when last seen
 	seenPhantom map[string]bool
+	sent        []*c07rMsg
 	history     []string
 	reloads     int
 }
@@ -397,6 +477,10 @@ func (s *c07rSeq) message() *c07rMsg {
 	}
 	m.covert = c07rCoverts[r.Intn(len(c07rCoverts))]
 	m.prescanned = r.Intn(100) < 15
+	m.port = -1
+	if r.Intn(4) == 0 {
+		m.port = []int{443, 8443, 2222}[r.Intn(3)]
+	}
 	return m
 }
 
@@ -601,6 +685,59 @@ func (s *c07rSeq) deliver(m *c07rMsg, live bool) {
 				s.viol("reload:probe:wrong-target:"+fam, "the liveness probe went to another address than the registration's phantom", m, ctx)
 			}
 		}
+		// whatever is connectable / announced must satisfy every admission condition WITH THE VALUES IT CARRIES:
+		// its covert, port and registrant must be those of a delivery that was admissible when it arrived
+		idn.secret, idn.phantom = m.secret, phantom
+		dl := c07rDelivery{port: 443, registrant: m.regAddr.String(), admissible: admit, why: why}
+		if m.port >= 0 {
+			dl.port = uint16(m.port)
+		}
+		if strings.HasPrefix(m.covert, "localhost:") {
+			dl.covert = netip.AddrPortFrom(s.localhost, 8080)
+		} else {
+			dl.covert, _ = netip.ParseAddrPort(m.covert)
+		}
+		idn.deliveries = append(idn.deliveries, dl)
+		if o.visible {
+			if obj := c07rObj(s.rm, phantom, m.secret); obj != nil {
+				oc, _ := netip.ParseAddrPort(obj.Covert)
+				matched, refusedWhy := false, ""
+				for _, d := range idn.deliveries {
+					same := d.port == obj.PhantomPort && d.registrant == obj.registrationAddr.String() && d.covert.IsValid() && oc.IsValid() && d.covert.Port() == oc.Port() && d.covert.Addr().Unmap() == oc.Addr().Unmap()
+					if same && d.admissible {
+						matched = true
+					} else if same {
+						refusedWhy = d.why
+					} else if !d.admissible && refusedWhy == "" && d.port == obj.PhantomPort && d.registrant == obj.registrationAddr.String() && !d.covert.IsValid() {
+						refusedWhy = d.why
+					}
+				}
+				if !matched {
+					if refusedWhy == "" {
+						refusedWhy = "values-of-no-delivery"
+					}
+					ctx["connectable_object"] = fmt.Sprintf("covert=%q port=%d registrant=%v", obj.Covert, obj.PhantomPort, obj.registrationAddr)
+					ctx["deliveries_of_this_registration"] = fmt.Sprintf("%+v", idn.deliveries)
+					s.viol("redeliver:connectable-carries-values-of-a-refused-delivery:"+refusedWhy+":"+fam, "the registration returned for an incoming connection carries a covert / port / registrant that never satisfied the admission conditions (they come from a delivery that was refused: "+refusedWhy+")", m, ctx)
+				}
+			}
+		}
+		for _, a := range o.anns {
+			if a.Op != "New" {
+				continue
+			}
+			matched := false
+			for _, d := range idn.deliveries {
+				if d.admissible && uint32(d.port) == a.Port && d.registrant == a.Client {
+					matched = true
+				}
+			}
+			if !matched {
+				ctx["deliveries_of_this_registration"] = fmt.Sprintf("%+v", idn.deliveries)
+				s.viol("redeliver:announced-values-of-a-refused-delivery:"+fam, "the announcement carries a port / client that belong to no delivery that satisfied the admission conditions", m, ctx)
+				break
+			}
+		}
 		idn.delivered = true
 		idn.admitted = idn.admitted || o.visible
 		if pre && covertOK || o.created {
@@ -678,7 +815,18 @@ func TestVerifC07Reload(t *testing.T) {
 				s.reload(n, why)
 				continue
 			}
-			s.deliver(s.message(), rng.Intn(100) < 12)
+			if i > 3 && rng.Intn(100) < 14 {
+				s.elapse([]time.Duration{0, 6 * time.Second, 6 * time.Second, 11 * time.Minute}[rng.Intn(4)])
+				continue
+			}
+			var m *c07rMsg
+			if len(s.sent) > 0 && rng.Intn(100) < 30 {
+				m = s.variant()
+			} else {
+				m = s.message()
+			}
+			s.sent = append(s.sent, m)
+			s.deliver(m, rng.Intn(100) < 14)
 		}
 		h.rec.Count("sequences", 1)
 	}
